@@ -145,6 +145,7 @@ func checkC20(c *Ctx) {
 	c.Clause("the reverse proxy receives the client's own request (its context), so nothing but the peers ends an upgraded connection; no middleware hands the request on with a context Helios can end itself (WithTimeout / WithDeadline / WithCancel)")
 	c.Clause("Shutdown closes every idle connection of every pool under both locks and replaces the pool map")
 	c.Clause("staleness is judged against a clock read taken with the pool lock held (time spent waiting for the lock counts)")
+	c.Clause("the pool Helios builds from its configuration gets each limit from the configuration field of the same meaning (max_idle is not fed from max_active)")
 	c.NotDecided("byte-exact relaying (inside net/http/httputil); pool histories against a reference model")
 
 	ws := c.wrappers()
@@ -168,6 +169,7 @@ func checkC20(c *Ctx) {
 			return ""
 		})
 	c.requestContextIsClients()
+	c.constructorArgsFromConfig("NewWebSocketPool")
 	lockDiscipline(c, func(k string) bool {
 		return strings.HasPrefix(k, poolT) || strings.HasPrefix(k, "loadbalancer.WebSocketPool.")
 	})
